@@ -31,3 +31,11 @@ UNITS["tree"] = {
     "overlays": _p("contracts/compress.vc", "contracts/chunk.vc", "contracts/tree.vc"),
     "doc": "tree hashing: compress_chunks/parents_parallel, compress_subtree_wide, hash_all_at_once, hash/keyed_hash/derive_key",
 }
+
+UNITS["stack_lemmas"] = {
+    "files": [],
+    "prelude": _p("prelude/core.rs"),
+    "spec": _p("spec/blake3_spec.rs", "spec/tree_spec.rs", "spec/stack_spec.rs"),
+    "overlays": [],
+    "doc": "lemmas about the incremental hasher's CV stack (no repo code)",
+}
